@@ -77,6 +77,8 @@ PROPS = {
     },
     "C01": {
         "modules": ["Cose.Props.C01", "Cose.Props.C01Enc", "Cose.Props.C01Sign", "Cose.Props.C01Mac", "Cose.Props.C01EncR", "Cose.Props.C01Forms", "Cose.Props.CwtEndToEnd"], "families": ["msg:C01", "msg:C06", "conv"], "spec_ops": ["conv.keyset", "conv.ed25519", "conv.ecdsa", "conv.ecdh", "conv.gen"],
+        "extras": [{"name": "race", "pkg": "./race", "build_flags": ["-race"], "args": ["-seed", "{seed}", "-n", "{n}", "-only", "Mac0/,Sign1/,Encrypt0/"],
+                    "n_quick": 30, "n_thorough": 400, "timeout": 3000}],
         "n_quick": 500, "n_thorough": 60000,
         "rule": "6 kinds x 24 algorithms x payload {nil, empty, raw of every CBOR length class, pre-encoded CBOR, typed map} x header maps (int/text labels; int, bstr, tstr, bool, array, nested-map values) "
                 "x external data {nil, empty, random} x 1-3 signers / 1-3 recipients incl. one nesting level; each produced message consumed tagged, untagged and CWT-tagged; "
@@ -86,6 +88,8 @@ PROPS = {
     },
     "C02": {
         "modules": ["Cose.Props.C02", "Cose.Props.History", "Cose.Props.C01Sign"], "families": ["msg:C02", "conv"], "spec_ops": ["conv.keyset", "conv.ed25519", "conv.ecdsa", "conv.ecdh", "conv.gen"],
+        "extras": [{"name": "race", "pkg": "./race", "build_flags": ["-race"], "args": ["-seed", "{seed}", "-n", "{n}", "-only", "Mac0/,Sign1/"],
+                    "n_quick": 30, "n_thorough": 400, "timeout": 3000}],
         "n_quick": 400, "n_thorough": 50000,
         "rule": "valid Sign1/Sign/Mac0/Mac messages, then per message 4 alterations: bit flip at a random position, truncation, trailing byte, byte replacement, other external data, "
                 "other key, splice of one top-level member from an independently produced message, change of kind (tag/prefix swap); model (with Lean HMAC/CBC-MAC/ECDSA/Ed25519) predicts accept/reject exactly",
@@ -94,6 +98,8 @@ PROPS = {
     },
     "C03": {
         "modules": ["Cose.Props.C03", "Cose.Props.History"], "families": ["msg:C03", "prim:aead", "msg:C06"], "spec_ops": [],
+        "extras": [{"name": "race", "pkg": "./race", "build_flags": ["-race"], "args": ["-seed", "{seed}", "-n", "{n}", "-only", "Encrypt0/,decrypt-shared-input"],
+                    "n_quick": 30, "n_thorough": 400, "timeout": 3000}],
         "n_quick": 400, "n_thorough": 50000,
         "rule": "valid Encrypt0/Encrypt messages over 12 AEADs, then alterations as for C02 (ciphertext, IV, protected bytes, prefix, shape, key, external data); after a failed Decrypt the harness "
                 "inspects the message object's Payload (PAYLOAD-LEAKED is reported if it is not the zero value)",
@@ -142,7 +148,7 @@ PROPS = {
         "assumptions": ["known finding D9 (uninterpretable key_ops lift the restriction) is listed in known_findings.txt and proved as malformed_ops_unusable_cex"],
     },
     "C17": {
-        "modules": ["Cose.Props.C17"], "families": ["key", "impl", "sig", "ecdh", "dec", "map", "conv"], "spec_ops": ["dec.keyjson", "conv.ed25519", "conv.ecdsa", "conv.ecdh", "conv.gen", "conv.keyset"],
+        "modules": ["Cose.Props.C17", "Cose.Go.ByteStr"], "families": ["key", "impl", "sig", "ecdh", "dec", "map", "conv"], "spec_ops": ["dec.keyjson", "conv.ed25519", "conv.ecdsa", "conv.ecdh", "conv.gen", "conv.keyset"],
         "extras": [{"name": "nolink", "pkg": "./nolink", "args": [], "n_quick": 1, "n_thorough": 1}],
         "n_quick": 1000, "n_thorough": 100000,
         "rule": "symmetric / Ed25519 / ECDSA keys with optional and broken members (kty, alg in every Go kind or absent or foreign, kid, key_ops, Base IV, extra labels, wrong sizes), nil key; "
